@@ -493,12 +493,18 @@ pub fn c03_real_server_part(ctx: &Ctx, classes: &std::sync::Mutex<std::collectio
     let lt_pk = rtref::crypto::public_key(&rtref::crypto::unhex(BASE_SEED_HEX).try_into().unwrap());
     let mut n = 0u64;
     for batch_size in [64u8, 3] {
-        let port = free_port();
-        let mut w = Written::base(port);
-        w.set("num_workers", "1");
-        w.set("batch_size", &batch_size.to_string());
-        let mut sp = ServerProc::start(&w, Source::File, &[])?;
-        if sp.wait_started(1, Duration::from_secs(10)) < 1 {
+        let (mut sp, port) = start_serving(
+            &|port| {
+                let mut w = Written::base(port);
+                w.set("num_workers", "1");
+                w.set("batch_size", &batch_size.to_string());
+                w
+            },
+            Source::File,
+            1,
+            Duration::from_secs(10),
+        )?;
+        if sp.try_status().is_some() {
             return Err(format!("real server did not start: {}", sp.stderr()));
         }
         for proto in ["0", "13"] {
@@ -643,4 +649,25 @@ pub fn external_port_collision(stderr: &str, ports: &[u16]) -> bool {
         return true;
     }
     ports.iter().any(|&p| UdpSocket::bind(("127.0.0.1", p)).is_err() || std::net::TcpListener::bind(("127.0.0.1", p)).is_err())
+}
+
+/// Start the real server on a fresh port and wait for its `n` workers; an external port collision
+/// (somebody else bound the port between the free-port test and the server's bind) is retried.
+pub fn start_serving(mk: &dyn Fn(u16) -> Written, src: Source, n: usize, timeout: Duration) -> Result<(ServerProc, u16), String> {
+    let mut last = String::new();
+    for _ in 0..4 {
+        let port = free_port();
+        let w = mk(port);
+        let mut sp = ServerProc::start(&w, src, &[])?;
+        sp.wait_started(n, timeout);
+        if sp.try_status().is_some() {
+            let se = sp.stderr();
+            if external_port_collision(&se, &[port]) {
+                last = se;
+                continue;
+            }
+        }
+        return Ok((sp, port));
+    }
+    Err(format!("could not start the server on a free port: {}", last.lines().next().unwrap_or("")))
 }
